@@ -7,7 +7,7 @@
     * [convx c] (built command): as [conv c], but an argument may have [require_equals], a value
       terminator, and -- unless it is a positional -- [allow_hyphen_values] / [allow_negative_numbers].
       Fourth pass: positionals may be [last(true)] / [trailing_var_arg] (the tails are in UnparseXTrail.v).
-      Still excluded: hyphen values on positionals.
+      Positionals may take hyphen / negative-number values when their run does not stay open ([posx_ok], [hyphen_tok]).
     * [wfx_items c pst pos its]: as [wf_items], with per occurrence
       - an option with [require_equals] is only spelled [--o=v] / [-o=v] (clusters [-abco=v] included);
       - a separate value is not the option's (or the positional's) terminator;
@@ -32,9 +32,7 @@ Variable c : cmd.
 (** fourth pass: [last(true)] and [trailing_var_arg] are allowed on positionals (an option never has them);
     a multiple positional below the highest index is allowed when the last positional is [last(true)]
     ([low_index_mults_any], Escape.v, is the parser's own test: the look-ahead is then switched off) *)
-Definition convx_arg (a : arg) : bool :=
-  (is_some (a_index a) || (negb (a_last a) && negb (a_tva a)))
-  && (negb (is_some (a_index a)) || (negb (a_hyphen a) && negb (a_negnum a))).
+Definition convx_arg (a : arg) : bool := is_some (a_index a) || (negb (a_last a) && negb (a_tva a)).
 Definition convx : bool :=
   assert_app c && negb (is_set s_sub_precedence c) && forallb convx_arg (c_args c)
   && negb (is_set s_allow_missing_pos c) && negb (low_index_mults_any c).
@@ -66,12 +64,40 @@ Definition wfx_tail (t : ctail) : bool :=
   | TEq o v => short_ok o && is_opt (get_short c o)
   | TSep o vs => short_ok o && sepx_ok (get_short c o) vs
   end.
+(** fourth pass: POSITIONALS may take hyphen / negative-number values.  While the counter points at such a positional
+    the two early exits of [parse_short_arg] are live: a cluster must not be [-<number>] (negative numbers) nor contain
+    an unknown short (hyphen values) -- otherwise it IS a value of the positional ([hyphen_tok]) *)
+Definition pos_negnum (pos : N) : bool := match get_pos c pos with Some a => a_negnum a | None => false end.
+Definition pos_hyphen (pos : N) : bool := match get_pos c pos with Some a => a_hyphen a && negb (a_last a) | None => false end.
+Definition cluster_clear (pos : N) (r : bytes) : bool :=
+  negb (pos_negnum pos && sf_is_negative_number r) && negb (pos_hyphen pos && sf_any_unknown c (S (length r)) r).
+(** a long name the parser knows nothing about *)
+Definition long_unknown (f : bytes) : bool :=
+  negb (is_some (get_long c f)) && negb (is_set s_infer_long c) && negb (is_some (possible_long_flag_subcommand c f)).
+(** a token that looks like a flag but is handed to the positional at [pos] as a value *)
+Definition hyphen_tok (pos : N) (v : bytes) : bool :=
+  negb (is_escape v) &&
+  match to_long v with
+  | Some (f, ok, val) => pos_hyphen pos && ok && negb (is_nil f && negb (is_some val)) && long_unknown f
+  | None => match to_short v with
+            | Some r => (pos_negnum pos && sf_is_negative_number r) || (pos_hyphen pos && sf_any_unknown c (S (length r)) r)
+            | None => false end
+  end.
+(** one such value for a positional that is left behind after it *)
+Definition hyph_single (pst : pstate_t) (pos : N) (vs : list bytes) : bool :=
+  match get_pos c pos, vs, pst with
+  | Some a, [v], PSValuesDone => hyphen_tok pos v && negb (a_is_multiple a)
+  | _, _, _ => false
+  end.
 (** a run of positional values BEFORE [--]: not for a [last(true)] positional (only reachable after [--]) nor
-    for a [trailing_var_arg] one (its run is a tail of the level: UnparseXTrail.v) *)
-Definition posx_ok (pst : pstate_t) (o : option arg) (vs : list bytes) : bool :=
-  pos_ok pst o vs
-  && match o with Some a => forallb (fun v => negb (check_terminator a v)) vs && negb (a_last a) && negb (a_tva a)
-                | None => false end.
+    for a [trailing_var_arg] one (its run is a tail of the level: UnparseXTrail.v); a positional whose run stays
+    open takes no hyphen / negative-number values (it would swallow the rest of the line: a tail, UnparseXTrail.v) *)
+Definition posx_ok (pst : pstate_t) (pos : N) (vs : list bytes) : bool :=
+  (pos_ok pst (get_pos c pos) vs || hyph_single pst pos vs)
+  && match get_pos c pos with
+     | Some a => forallb (fun v => negb (check_terminator a v)) vs && negb (a_last a) && negb (a_tva a)
+                 && (negb (a_is_multiple a) || (negb (a_hyphen a) && negb (a_negnum a)))
+     | None => false end.
 Definition wfx_item (pst : pstate_t) (pos : N) (it : item) : bool :=
   forallb (nosub c) (firstn 1 (render_item it)) &&
   match it with
@@ -81,7 +107,8 @@ Definition wfx_item (pst : pstate_t) (pos : N) (it : item) : bool :=
   | ItCluster fl t =>
       forallb (fun ch => short_ok ch && is_flag (get_short c ch)) fl && wfx_tail t
       && negb (is_nil fl && match t with TNone => true | _ => false end)
-  | ItPos vs => posx_ok pst (get_pos c pos) vs
+      && cluster_clear pos (tl (hd [] (render_item it)))
+  | ItPos vs => posx_ok pst pos vs
   end.
 Fixpoint wfx_items (pst : pstate_t) (pos : N) (its : list item) : bool :=
   match its with
